@@ -515,6 +515,9 @@ func (fr *frame) execUnOp(x *ssa.UnOp, st *State) {
 		r = c.name(x.Name(), r)
 		fr.vals[x] = r
 		c.assumeValid(st, r, x.Type())
+		if r.Sort == "Ref" || r.Sort == "Slice" {
+			c.assumeEntryValid(st, v, r, c.R.CellHeapT(x.Type()))
+		}
 		if r.Sort == "Iface" {
 			c.ifaceLoads = append(c.ifaceLoads, r)
 			c.assumeJSON(st, r, x.Type())
@@ -901,6 +904,13 @@ func (fr *frame) execLookup(x *ssa.Lookup, st *State) {
 	}
 	v := c.name(x.Name(), c.mapGet(st, m, mt, k))
 	c.assumeValid(st, v, mt.Elem())
+	if v.Sort == "Ref" || v.Sort == "Slice" {
+		if _, dom := st.heaps[c.R.MDomHeapT(mt)]; dom {
+			if ent, ok := c.entry, true; ok && ent != nil && st.heaps[c.R.MDomHeapT(mt)].S == ent.heaps[c.R.MDomHeapT(mt)].S {
+				c.assumeEntryValid(st, m, v, c.R.MValHeapT(mt))
+			}
+		}
+	}
 	if v.Sort == "Iface" {
 		c.ifaceLoads = append(c.ifaceLoads, v)
 		c.assumeJSON(st, v, mt.Elem())
